@@ -43,6 +43,7 @@ type Ctx struct {
 	Notes []string
 	LoadT func() (*prog.Program, error)
 	Verif string
+	fwd   map[string][]fwdInfo
 	Repo  string
 	rule  string
 	floor map[string]int
